@@ -37,10 +37,13 @@ func checkC16(c *Check) {
 		c.Unres("type client.reconnectableClientImpl")
 		return
 	}
-	fClient := p.Field(pClient, "reconnectableClientImpl", "client")
-	fClosed := p.Field(pClient, "reconnectableClientImpl", "closed")
-	fMutex := p.Field(pClient, "reconnectableClientImpl", "m")
-	fCount := p.Field(pClient, "reconnectableClientImpl", "count")
+	fClient := p.FieldLike(pClient, "reconnectableClientImpl", "client", func(t types.Type) bool {
+		n := namedOf(t)
+		return n != nil && n.Obj().Name() == "Client" && types.IsInterface(t)
+	})
+	fClosed := p.FieldLike(pClient, "reconnectableClientImpl", "closed", isBoolType)
+	fMutex := p.FieldLike(pClient, "reconnectableClientImpl", "m", isMutexType)
+	fCount := p.FieldLike(pClient, "reconnectableClientImpl", "count", func(t types.Type) bool { return isIntType(t) })
 	if fClient == nil || fClosed == nil || fMutex == nil {
 		c.Unres("fields client/closed/m of reconnectableClientImpl")
 		return
@@ -369,10 +372,10 @@ func checkC16(c *Check) {
 
 	// ---- R6 single-use factory
 	const r6 = "C16.R6 singleUseConnFactory tests and sets `used` under its mutex and calls Open only on the unused edge"
-	if fUsed := p.Field(pAppCmd, "singleUseConnFactory", "used"); fUsed == nil {
+	if fUsed := p.FieldLike(pAppCmd, "singleUseConnFactory", "used", isBoolType); fUsed == nil {
 		c.Unres("app/cmd singleUseConnFactory.used")
 	} else {
-		fMu := p.Field(pAppCmd, "singleUseConnFactory", "mu")
+		fMu := p.FieldLike(pAppCmd, "singleUseConnFactory", "mu", isMutexType)
 		for _, fr := range fieldRefs(p.RepoFns, fUsed) {
 			if fr.Kind == "addr" {
 				continue
